@@ -16,7 +16,7 @@ Sums over i < k are prefix-sum functions; the sum the code builds is shown equal
 import z3
 from pyvc import core
 from pyvc.core import Sym, lift, INT, REAL, BOOL, Unsupported
-from pyvc.heap import SymSeq, SymRange, LazyMap, LazyProduct, SInt, STuple
+from pyvc.heap import SymSeq, SymRange, LazyMap, LazyProduct, SInt, STuple, SReal
 from pyvc.rt import Tracked, BUILTINS
 from pyvc.unit import Unit, NoopLogger
 from contracts.sw import Store, induct, Var
@@ -2034,6 +2034,158 @@ def objective_units():
 # =====================================================================================================================
 # Given-weights encoders of the DAG models (solution_weights_superset): weights are DATA, layers only choose paths
 
+# =====================================================================================================================
+# MinSetCover._encode_set_cover (C15): one 0/1 column per subset, one covering row per universe element, weighted objective
+
+def u_setcover():
+    P = "C15"
+    XS = z3.Function("subset_var", INT, REAL)
+    INS = z3.Function("element_in_subset", INT, INT, BOOL)           # (element, subset index)
+    WS = z3.Function("subset_weight", INT, REAL)
+    UE = z3.Function("universe_element_at", INT, INT)
+    st = {}
+
+    def cover_term(e, i): return z3.If(INS(e, i), XS(i), z3.RealVal(0))
+    def obj_term(i): return mul(WS(i), XS(i))
+
+    def inv(ns, seq, done):
+        j = z3.Int("sj")
+        return {"rows-so-far=exactly-(the-chosen-subsets-containing-the-element-number-at-least-1)-for-the-elements-seen":
+                lift(ns["self"].solver.store.holds) == z3.And(st["H1"], z3.ForAll([j], z3.Implies(z3.And(j >= 0, j < lift(done)), st["CS"](UE(j), st["m"]) >= 1)))}
+
+    def on_entry(ns, it=None):
+        st["H1"] = lift(ns["self"].solver.store.holds)
+
+    def h(c, f):
+        abstract_mul(c)
+        m, nU = c.fresh_const("n_subsets", INT), c.fresh_const("n_universe", INT)
+        c.assume(z3.And(m >= 0, nU >= 0))
+        st.update(m=m)
+        st["CS"] = prefix_sum(c, "chosen_subsets_containing", lambda e, q: cover_term(e, q), 1)
+        st["OS"] = prefix_sum(c, "weighted_choice", lambda q: obj_term(q), 0)
+
+        class Subset:
+            def __init__(self, i): self.i = lift(i)
+            def sym_contains(self, e): return Sym(INS(lift(e), self.i))
+            def __contains__(self, e): return bool(self.sym_contains(e))
+
+        class Me(Tracked):
+            pass
+        me = Me()
+        sol = Solver({"subset": (XS, 1)})
+        sol.store.holds = Sym(z3.BoolVal(True))              # a freshly created model has no rows
+
+        def recognise(indexes, name_prefix):
+            if isinstance(indexes, SymSeq) and name_prefix == "subset":
+                q0 = c.fresh_const("arbitrary_position", INT)
+                c.assume(z3.And(q0 >= 0, q0 < m))
+                if c._valid(z3.And(lift(indexes.length()) == m, lift(indexes.at(q0)) == q0)):
+                    return IdxSet("subset_indexes", lambda i: z3.And(i >= 0, i < m), 1)
+            raise Unsupported("index list not recognised (%s)" % name_prefix)
+        orig_add = sol.add_variables
+        sol.add_variables = lambda indexes, name_prefix="", lb=0, ub=1, var_type="integer": orig_add(recognise(indexes, name_prefix), name_prefix=name_prefix, lb=lb, ub=ub, var_type=var_type)
+
+        def linked_sum(it):
+            r = Solver.quicksum(sol, it)
+            bs = c.sums[-1]
+            tj = z3.Int(c.name("tj"))
+            t = bs.t(tj)
+            if not c._valid(bs.n == m):
+                raise Unsupported("a sum over something else than the subsets")
+            e = st.get("cur_e")
+            if e is not None and c._valid(t == cover_term(e, tj)):
+                S = st["CS"]
+                link_sum(c, "sum-built-by-the-code=number-of-chosen-subsets-containing-the-element", lambda q: S(e, q), lambda q: z3.Implies(q >= 0, S(e, q + 1) == S(e, q) + cover_term(e, q)), m, prop=P)
+                return r
+            if c._valid(t == obj_term(tj)):
+                S = st["OS"]
+                link_sum(c, "sum-built-by-the-code=total-weight-of-the-chosen-subsets", lambda q: S(q), lambda q: z3.Implies(q >= 0, S(q + 1) == S(q) + obj_term(q)), m, prop=P)
+                return r
+            # a sum of another shape is not linked to a specification sum: the clauses that need it stay open and the concrete instances decide
+            c.assume(bs.defn())
+            return r
+        sol.quicksum = linked_sum
+
+        class Universe(SymSeq):
+            def _at_(self, j): pass
+        uni = SymSeq(nU, lambda j: _track(Sym(UE(lift(j)))), SInt, "universe")
+
+        def _track(x):
+            st["cur_e"] = x.t
+            return x
+
+        class SWMod:
+            @staticmethod
+            def SolverWrapper(**kw):
+                return sol
+        st["sw"] = SWMod
+        me.solver_options = {}
+        me.subsets = SymSeq(m, lambda i: Subset(i), None, "subsets")
+        me.subset_weights = SymSeq(m, lambda i: Sym(WS(lift(i))), SReal, "subset_weights")
+        me.universe = uni
+        f(me)
+        H = lift(sol.store.holds)
+        i_, j_ = z3.Ints("pi pj")
+        bounds = z3.ForAll([i_], z3.Implies(z3.And(i_ >= 0, i_ < m), z3.And(XS(i_) >= 0, XS(i_) <= 1, z3.IsInt(XS(i_)))))
+        spec = z3.And(bounds, z3.ForAll([j_], z3.Implies(z3.And(j_ >= 0, j_ < nU), st["CS"](UE(j_), m) >= 1)))
+        c.prove("post:SOUND-every-admitted-assignment-is-a-0/1-choice-of-subsets-in-which-every-universe-element-lies-in-a-chosen-subset", z3.Implies(H, spec), prop=P)
+        c.prove("post:COMPLETE-every-such-choice-is-admitted", z3.Implies(spec, H), prop=None, kind="complete")
+        c.prove("post:exactly-the-subset-columns-are-created", z3.BoolVal(set(sol.created) == {"subset"}), prop=P)
+        objs = getattr(sol, "objectives", [])
+        c.prove("post:the-objective-is-set-exactly-once,-to-be-minimised", z3.BoolVal(len(objs) == 1 and objs[0][1] == "minimize"), prop=P)
+        if len(objs) == 1:
+            c.prove("post:objective=total-weight-of-the-chosen-subsets", objs[0][0] == st["OS"](m), prop=P)
+
+    def concrete(inst):
+        def hc(c, f):
+            universe, subsets, weights = inst["universe"], inst["subsets"], inst["weights"]
+
+            class Me(Tracked):
+                pass
+            me = Me()
+            sol = Solver({"subset": (XS, 1)})
+            sol.store.holds = Sym(z3.BoolVal(True))
+
+            class SWMod:
+                @staticmethod
+                def SolverWrapper(**kw):
+                    return sol
+            st["sw"] = SWMod
+            orig_add = sol.add_variables
+            sol.add_variables = lambda indexes, name_prefix="", lb=0, ub=1, var_type="integer": orig_add(
+                concrete_idx("subset_indexes", [(int(i),) for i in indexes], 1), name_prefix=name_prefix, lb=lb, ub=ub, var_type=var_type)
+            me.solver_options, me.subsets, me.subset_weights, me.universe = {}, [list(x) for x in subsets], list(weights), list(universe)
+            f(me)
+            H = lift(sol.store.holds)
+            xs = [XS(z3.IntVal(i)) for i in range(len(subsets))]
+            full = z3.And(*([z3.And(x >= 0, x <= 1, z3.IsInt(x)) for x in xs] +
+                            [sum([xs[i] for i in range(len(subsets)) if e in subsets[i]], z3.RealVal(0)) >= 1 for e in universe]))
+            c.prove("instance:SOUND-0/1-choice-covering-every-element", z3.Implies(H, full), prop=P)
+            c.prove("instance:COMPLETE-nothing-else-is-excluded", z3.Implies(full, H), prop=None, kind="complete")
+            objs = getattr(sol, "objectives", [])
+            want = sum([z3.RealVal(str(weights[i])) * xs[i] for i in range(len(subsets))], z3.RealVal(0))
+            c.prove("instance:objective=total-weight,-minimised", z3.And(z3.BoolVal(len(objs) == 1 and objs[0][1] == "minimize"), (objs[0][0] == want) if objs else z3.BoolVal(False)), prop=P)
+        return hc
+
+    def instances():
+        return [(lab, concrete(i)) for lab, i in (
+            ("3 elements, 3 subsets", dict(universe=[0, 1, 2], subsets=[[0, 1], [1, 2], [2]], weights=[1, 2, 1])),
+            ("element in two subsets, fractional weights", dict(universe=[0, 1], subsets=[[0], [0, 1], [1]], weights=[0.5, 1.5, 1])),
+            ("subset with a foreign element, zero weight", dict(universe=[1, 2], subsets=[[1, 9], [2, 9], [1, 2]], weights=[0, 1, 3])))]
+
+    fresh = lambda old: Sym(z3.Bool(core.ctx().name("H")))
+    loops = {0: dict(inv=inv, prop=P, on_entry=on_entry, modifies=[(("self", "solver", "store", "holds"), fresh)], keep=("element",))}
+
+    class SWProxy:
+        @staticmethod
+        def SolverWrapper(**kw):
+            return st["sw"].SolverWrapper(**kw)
+    return Unit("flowpaths/minsetcover.py", "MinSetCover._encode_set_cover", h, globs=dict(utils=UtilsStub, sw=SWProxy), loops=split_loops(loops, P), props=[P], instances=instances,
+                callee_contracts=[A1C, "SolverWrapper.set_objective replaces the objective (C12)"],
+                assumptions=[A3, "membership of an element in a subset is an arbitrary relation; weights are arbitrary reals (weight x column is an uninterpreted product)"])
+
+
+
 def find_app(t, decl):
     todo = [t]
     while todo:
@@ -2319,5 +2471,5 @@ def given_weights_units():
 
 
 def all_units():
-    return dag_units() + cyc_units() + objective_units() + given_weights_units() + [u_subset_constraints()] + [u_encode_walks(False), u_encode_walks(True)] + [u_mingenset(w, m_) for w in (int, float) for m_ in (False, True)] + [u_symmetry_breaking()] + [u_min_error_flow(int), u_min_error_flow(float)] + [u_encode_paths(False), u_encode_paths(True)] + \
+    return [u_setcover()] + dag_units() + cyc_units() + objective_units() + given_weights_units() + [u_subset_constraints()] + [u_encode_walks(False), u_encode_walks(True)] + [u_mingenset(w, m_) for w in (int, float) for m_ in (False, True)] + [u_symmetry_breaking()] + [u_min_error_flow(int), u_min_error_flow(float)] + [u_encode_paths(False), u_encode_paths(True)] + \
         [u_cover("flowpaths/kpathcover.py", "kPathCover._encode_path_cover", "subpath_constraints"), u_cover("flowpaths/kpathcovercycles.py", "kPathCoverCycles._encode_walk_cover", "subset_constraints")]
